@@ -134,10 +134,14 @@ func (env *psEnv) runPS(c *rt.C, prog []ref.Tok, fpPrefix string, withSystem boo
 // every call that ended without error or by stop. After a call that ended with
 // an error only the error name is prescribed, so both operand stacks are
 // cleared before the next call (dictionary stacks and contents stay).
-func (env *psEnv) runPSHistory(c *rt.C, progs [][]ref.Tok, fpPrefix string) string {
+func (env *psEnv) runPSHistory(c *rt.C, progs [][]ref.Tok, fpPrefix string, raw ...string) string {
 	var texts []string
-	for _, p := range progs {
-		texts = append(texts, ref.RenderTokens(p))
+	for i, p := range progs {
+		if i < len(raw) && raw[i] != "" {
+			texts = append(texts, raw[i]) // the same tokens in a particular spelling
+		} else {
+			texts = append(texts, ref.RenderTokens(p))
+		}
 	}
 	c.SetDetail(func() string { return "programs, one Execute call each:\n  " + strings.Join(texts, "\n  ") })
 	model := ref.NewInterp(env.stdEnc)
@@ -265,6 +269,8 @@ func c02Pool() (full, reduced []poolItem) {
 	add(false, "/zz", "/zz")
 	add(false, "/add", "/add")
 	add(false, "/Font", "/Font")
+	add(false, "/utf8name", "/\u00c4rger\u4e00")
+	add(false, "/latin1name", "/\xe9t\xe9")
 	add(true, "()", "()")
 	add(false, "(abc)", "(abc)")
 	add(false, "(A)", "(A)")
